@@ -194,3 +194,41 @@ package core
 //@ func NewParser results (np)
 //@   property C02
 //@   ensures cpinv(np)
+
+// ---- C05: filter dispatch ----
+// Every standard filter name and its abbreviation (ISO 32000-1 Table 6 / 8.9.7) selects the same decoder; pass-through
+// and unsupported filters are explicit; an unknown name is an error.
+//@ func paramsObjToDict results (d)
+//@   property C05
+//@   flags pure
+//@   ensures dict_kept: istype(obj, Dict) ==> d == astype(obj, Dict)
+//@   ensures otherwise_none: !istype(obj, Dict) ==> len(d) == 0
+
+//@ func dictToParams results (params)
+//@   property C05
+//@   flags pure
+//@   ensures same_keys: len(dict) > 0 ==> forall k string :: {has(params, k)} has(params, k) <==> has(dict, k)
+//@   loop 0:
+//@     invariant forall k string :: {has(params, k)} has(params, k) <==> $visited[k]
+
+//@ func decodeWithFilter results (out, err)
+//@   property C05
+//@   flags pure
+//@   ensures flate: (filterName == "FlateDecode" || filterName == "Fl") ==> sameseq(out, filters.FlateDecode(data, dictToParams(params))) && err == filters.FlateDecode$1(data, dictToParams(params))
+//@   ensures asciihex: (filterName == "ASCIIHexDecode" || filterName == "AHx") ==> sameseq(out, filters.ASCIIHexDecode(data)) && err == filters.ASCIIHexDecode$1(data)
+//@   ensures ascii85: (filterName == "ASCII85Decode" || filterName == "A85") ==> sameseq(out, filters.ASCII85Decode(data)) && err == filters.ASCII85Decode$1(data)
+//@   ensures image_data_passes_through: (filterName == "DCTDecode" || filterName == "DCT" || filterName == "JPXDecode") ==> !err && sameseq(out, data)
+//@   ensures unsupported_is_error: (filterName == "LZWDecode" || filterName == "LZW" || filterName == "RunLengthDecode" || filterName == "RL" || filterName == "JBIG2Decode" || filterName == "Crypt") ==> err
+//@   ensures unknown_is_error: !(filterName == "FlateDecode" || filterName == "Fl" || filterName == "ASCIIHexDecode" || filterName == "AHx" || filterName == "ASCII85Decode" || filterName == "A85" || filterName == "LZWDecode" || filterName == "LZW" || filterName == "RunLengthDecode" || filterName == "RL" || filterName == "CCITTFaxDecode" || filterName == "CCF" || filterName == "JBIG2Decode" || filterName == "DCTDecode" || filterName == "DCT" || filterName == "JPXDecode" || filterName == "Crypt") ==> err
+
+// Filters are applied in array order; the i-th filter gets the i-th entry of a /DecodeParms array (none when the
+// array is shorter), or the single /DecodeParms dictionary when that is not an array.
+//@ func (*Stream) Decode results (out, err)
+//@   property C05
+//@   ensures no_filter: isnil(s.Dict.Get("Filter")) ==> !err && sameseq(out, s.Data)
+//@   ensures single_filter: istype(s.Dict.Get("Filter"), Name) ==> sameseq(out, decodeWithFilter(s.Data, astype(s.Dict.Get("Filter"), Name), paramsObjToDict(s.Dict.Get("DecodeParms")))) && err == decodeWithFilter$1(s.Data, astype(s.Dict.Get("Filter"), Name), paramsObjToDict(s.Dict.Get("DecodeParms")))
+//@   ensures not_a_filter_is_error: !isnil(s.Dict.Get("Filter")) && !istype(s.Dict.Get("Filter"), Name) && !istype(s.Dict.Get("Filter"), Array) ==> err
+//@   callsite decodeWithFilter#2(d, nm, pr) requires sameseq(d, data) && nm == astype(filterArray[i], Name) && (istype(paramsObj, Array) ? (i < len(astype(paramsObj, Array)) ? pr == paramsObjToDict(astype(paramsObj, Array)[i]) : len(pr) == 0) : pr == paramsObjToDict(paramsObj))
+//@   loop 0:
+//@     invariant 0 <= i && i <= len(filterArray)
+//@     step in_array_order: sameseq(data, decodeWithFilter(prev(data), astype(filterArray[i], Name), params))
